@@ -406,9 +406,15 @@ def check_adjacent(ctx, fn):
             new_off = o
             for x in taken:
                 if isinstance(x, ast.If):
-                    t = x.test
+                    t, neg_ = x.test, False
+                    while isinstance(t, ast.UnaryOp) and isinstance(t.op, ast.Not):
+                        t, neg_ = t.operand, not neg_
+                    if not (isinstance(t, ast.Compare) and len(t.ops) == 1 and type(t.ops[0]) in (ast.LtE, ast.Lt, ast.GtE, ast.Gt)):
+                        raise AnalysisError("make_units_adjacent: test `%s` outside the recognised forms" % ast.unparse(x.test))
                     d = ev.ev(t.comparators[0]) - ev.ev(t.left)
                     holds = {ast.LtE: d, ast.Lt: d - 1, ast.GtE: -d, ast.Gt: -d - 1}[type(t.ops[0])]
+                    if neg_:
+                        holds = -holds - 1
                     if facts.nonneg(holds):
                         for y in x.body:
                             if isinstance(y, ast.AugAssign) and ast.unparse(y.target) == "offset":
